@@ -164,7 +164,7 @@ def run_min(
         kw["jac"] = jac
     else:
         kw["jac"] = jac_mode  # None, '2-point', '3-point', 'cs'
-    if bounds == "default":
+    if isinstance(bounds, str) and bounds == "default":
         kw["bounds"] = None if prob.unbounded and cfg.get("bounds_none", False) else np.array(prob.bounds, copy=True)
     else:
         kw["bounds"] = bounds
